@@ -22,6 +22,7 @@ struct Variant {
   int actArity;      // 2 = {CONTINUE, STOP}, 3 = + ASYNC_PAUSED
   int maxDepth;
   std::vector<int> dts;
+  int ownDelay = -1;  // plugin-level post_action_delay of the first action (requested through the invoking ruleset, like kill plugins do)
 };
 const char* kTag = "user.verif_rc";
 
@@ -54,6 +55,9 @@ struct C11 : vr::Driver {
     vs.push_back({"chain2-async", 2, 2, 1, false, 1, 3, th ? 5 : 3, {1}});
     vs.push_back({"three-names-async", 3, 1, 1, false, 1, 3, th ? 4 : 3, {1}});
     if (th) vs.push_back({"filter3", 3, 1, 0, true, 1, 2, 4, {1}});
+    // the stopping action carries its own post_action_delay: it must pause the INSTANCE that ran it
+    vs.push_back({"plugin-delay-longer", 2, 1, 0, false, 2, 2, th ? 5 : 4, {1, 2}, 2});
+    vs.push_back({"plugin-delay-shorter", 2, 1, 3, false, 2, 2, th ? 5 : 4, {1, 2}, 0});
   }
   size_t count() override { return vs.size(); }
   std::string describe(size_t i) override {
@@ -61,7 +65,7 @@ struct C11 : vr::Driver {
     std::ostringstream o;
     o << v.name << ": pattern grp/m* over {";
     for (int k = 1; k <= v.nNames; k++) o << "m" << k << ",";
-    o << "x1(non-matching)} actions=" << v.nActions << " delay=" << v.delay << " xattr_filter=" << (v.filter ? kTag : "-")
+    o << "x1(non-matching)} actions=" << v.nActions << " delay=" << v.delay << (v.ownDelay >= 0 ? " action a0 post_action_delay=" + std::to_string(v.ownDelay) : std::string()) << " xattr_filter=" << (v.filter ? kTag : "-")
       << " detector arity " << v.detArity << " action arity " << v.actArity << " depth<=" << v.maxDepth;
     return o.str();
   }
@@ -76,6 +80,10 @@ struct C11 : vr::Driver {
     rs.groupNames = {"g0"};
     rs.groups = {{"d0"}};
     for (int a = 0; a < v.nActions; a++) rs.actions.push_back({"a" + std::to_string(a)});
+    if (v.ownDelay >= 0) {
+      rs.actions[0].ownDelay = v.ownDelay;
+      rs.actions[0].json = "{\"name\":\"verif_scripted\",\"args\":{\"id\":\"a0\",\"post_action_delay\":\"" + std::to_string(v.ownDelay) + "\"}}";
+    }
     c.rulesets.push_back(rs);
     return c;
   }
